@@ -470,7 +470,7 @@ def shard(i, n, tier, seed, rec, hb):
         for j in range(i, 160 if tier == "quick" else 4000, n):
             twin_case(rec, pvl, pairing, f"C18-twin-{seed}-{pairing}-{j}", classes)
     per = 1200 if tier == "quick" else 40000
-    for pairing in PAIRINGS:
+    for pairing in common.rotated(PAIRINGS, i):
         for j in range(i, per, n):
             hb.beat()
             case(rec, pvl, pairing, f"C18-{seed}-{pairing}-{j}", classes)
